@@ -15,7 +15,7 @@ func init() {
 		Explanation: "Decides structural necessary conditions of C16: (R-C16-1) after construction, service requests are issued only by the poll and by the lookup routine; every call of the lookup routine is edge-dominated by the true edge of Store.allowLookup, which is written only in the constructor; with lookups disabled LookupSecret/lookupWatcher return a non-nil error on the unknown-name edge and Secret panics only under 'unknown and lookups disabled'; " +
 			"(R-C16-2) the lookup's Get(ctx', name) runs inside the function literal passed to single-flight Do under the key \"lookup:\"+name for the same name; (R-C16-3) the install is edge-dominated by the fetch's nil error, is followed in the same critical section by the cache flush and the creation of the handle that is returned, and the failure edge writes nothing and returns a non-nil error; " +
 			"(R-C16-4) the context of the fetch is the caller's on the ok edge of Deadline(), otherwise WithTimeout(ctx, d) with constant d <= 5m whose cancel is deferred; (R-C16-5) every retry edge of the lookup loop depends on a witness written inside the Do literal ('this call ran the fetch') or on a bounded counter -- the shared error alone cannot tell the winner (whose own fallback fired) from a waiter; " +
-			"(R-C16-6) a retry edge exists, under the caller's own ctx.Err()==nil; (R-C16-7) only context errors are retried: with the errors.Is(err, Canceled|DeadlineExceeded) true edges removed the loop header is unreachable, and other errors are returned as they are.",
+			"(R-C16-6) a retry edge exists, under the caller's own ctx.Err()==nil; (R-C16-7) only context errors are retried: with the errors.Is(err, Canceled|DeadlineExceeded) true edges removed the loop header is unreachable, and other errors are returned as they are. (R-C16-8) every error handed to fmt.Errorf in the client library is wrapped with %w (the retry classification sees the real error); (R-C16-9) a looked-up secret is polled like any other: C11's R-C11-1.",
 		NotDecided:  "Behaviour over virtual time with hanging services; how many concurrent callers share one request (single-flight's contract, trusted).",
 		Trusted:     append([]string{"singleflight.Group.Do runs fn synchronously in the winning caller and hands every caller the same (value, error)"}, commonTrusted...),
 		Assumptions: []string{},
@@ -37,10 +37,14 @@ func lookupRoutine(p *eng.Prog) (*ssa.Function, *ssa.Call) {
 			if cal == nil || cal.Pkg == nil || cal.Pkg.Pkg.Path() != "golang.org/x/sync/singleflight" || (cal.Name() != "Do" && cal.Name() != "DoChan") || len(call.Call.Args) < 3 {
 				return
 			}
-			if b, isB := eng.Origin(call.Call.Args[1]).(*ssa.BinOp); isB {
-				if pre, isC := eng.ConstString(b.X); isC && pre == "lookup:" {
-					fn, do = f, call
-				}
+			// by role: the flight whose function (or a helper of it) asks the
+			// service for one secret with Get (the poll's flight runs the poll)
+			if mc, isMC := eng.Origin(call.Call.Args[2]).(*ssa.MakeClosure); isMC {
+				eng.InstrsDeep(mc.Fn.(*ssa.Function), func(_ *ssa.Function, x ssa.Instruction) {
+					if ic, isC := x.(*ssa.Call); isC && isStoreClientInvoke(&ic.Call) && ic.Call.Method.Name() == "Get" {
+						fn, do = f, call
+					}
+				})
 			}
 		})
 	}
@@ -206,8 +210,21 @@ func runC16(c *eng.Ctx, tier string) {
 			nameP = prm
 		}
 	}
-	keyName := eng.Origin(do.Call.Args[1]).(*ssa.BinOp).Y
-	c.Check(nameP != nil && eng.Origin(keyName) == ssa.Value(nameP), "R-C16-2", lk, do.Pos(), "single-flight key "+eng.ValStr(do.Call.Args[1]), "\"lookup:\" + the name being looked up", "")
+	// the key is per name: a constant label joined with the name looked up
+	// (callers that join a flight are handed the winner's result, so a key
+	// shared between names would hand out another secret's handle)
+	okKey := false
+	if kb, isB := eng.Origin(do.Call.Args[1]).(*ssa.BinOp); isB && kb.Op == token.ADD && nameP != nil {
+		_, xK := eng.ConstString(kb.X)
+		_, yK := eng.ConstString(kb.Y)
+		okKey = (xK && eng.Origin(kb.Y) == ssa.Value(nameP)) || (yK && eng.Origin(kb.X) == ssa.Value(nameP))
+	}
+	if !okKey && nameP != nil {
+		if text, vars, isT := eng.StrTemplate(do.Call.Args[1]); isT && len(vars) == 1 && eng.Origin(vars[0]) == ssa.Value(nameP) && text != "%s" {
+			okKey = true
+		}
+	}
+	c.Check(okKey, "R-C16-2", lk, do.Pos(), "single-flight key "+eng.ValStr(do.Call.Args[1]), "\"lookup:\" + the name being looked up", "")
 	// R-C16-2: the fetch is inside lit, for the same name
 	var fetch *ssa.Call
 	eng.Instrs(lit, func(in ssa.Instruction) {
@@ -351,6 +368,11 @@ func runC16(c *eng.Ctx, tier string) {
 
 	// R-C16-5/6/7 the retry loop
 	c16Retry(c, lk, do, flightLit)
+	// R-C16-8: the classification above sees the real error: nothing on the way up flattens it
+	clientWrapDiscipline(c, "R-C16-8")
+	// R-C16-9: "thereafter polled and cached like any other": the poll covers
+	// every name of the active set, however it got there (C11's rule)
+	includeOnly(c, "R-C16-9", func(sc *eng.Ctx) { runC11(sc, "quick") }, "R-C11-1")
 }
 
 func returnsSecret(call *ssa.Call) bool {
